@@ -904,3 +904,75 @@ class C09(Base):
             d2 = pyth_vectors(rng, 2)
             out.append(Case("o.look.2d", d2 + rng.distinct(2), family="oracle"))
         return out
+
+
+def qmul(p, q):
+    a, b, c, d = p
+    e, f, g, h = q
+    return [a * e - b * f - c * g - d * h, a * f + b * e + c * h - d * g, a * g - b * h + c * e + d * f,
+            a * h + b * g - c * f + d * e]
+
+
+def quat_pair_with_dot(rng, target, side):
+    """unit rational quaternions a, b with a.b just above (side=+1) or below (side=-1) target in (0,1):
+    b = a * (cos, sin*axis) with cos chosen rationally via the tangent half-angle parametrisation"""
+    a = rng.unit_quat()
+    # cos = (1-s^2)/(1+s^2) decreasing in s on [0,1]
+    lo, hi = F(0), F(1)
+    f = lambda s: (1 - s * s) / (1 + s * s)
+    for _ in range(50):
+        mid = (lo + hi) / 2
+        if f(mid) > target:
+            lo = mid
+        else:
+            hi = mid
+    s = lo if side > 0 else hi
+    c, sn = (1 - s * s) / (1 + s * s), 2 * s / (1 + s * s)
+    ax = rng.unit_vec3()
+    r = [c, sn * ax[0], sn * ax[1], sn * ax[2]]
+    return a, qmul(a, r)
+
+
+@prop("C14")
+class C14(Base):
+    title = "lerp, nlerp and slerp interpolate with exact endpoints along the shortest path"
+    design_ref = "§6 C14"
+    ops = ["v1.lerp", "v2.lerp", "v3.lerp", "v4.lerp", "q.lerp", "q.nlerp", "q.slerp", "q.dot", "q.normalize", "q.neg"]
+    oracle_ops = ["o.lerp", "o.nlerp.exact"]
+    native_args = float_args("c14")
+    level_note = Base.level_note + FLOAT_NOTE + (" The 1e-5 rad envelope of the near (nlerp) branch of slerp is stated "
+                                                 "(slerp_near_bound_full) but not proved; it is evaluated by the f64 oracle only.")
+
+    def families(self, rng, tier):
+        out = []
+        reps = 6 if tier == "quick" else 200
+        ts = [F(0), F(1), F(1, 2), F(3, 7), F(-1, 3), F(5, 4)]
+        for _ in range(reps):
+            for target, nm in ((THR, "straddle-0.9995"), (F(1, 10 ** 9), "straddle-0")):
+                for side in (1, -1):
+                    a, b = quat_pair_with_dot(rng, target, side)
+                    for sgn in (1, -1):
+                        bb = [sgn * x for x in b]
+                        t = rng.choice(ts)
+                        out.append(Case("q.slerp", a + bb + [t], family=nm))
+                        out.append(Case("q.nlerp", a + bb + [t], family=nm))
+            a = rng.unit_quat()
+            out.append(Case("q.slerp", a + a + [rng.choice(ts)], family="identical"))
+            out.append(Case("q.slerp", a + [-x for x in a] + [rng.choice(ts)], family="opposite"))
+            out.append(Case("q.nlerp", a + [-x for x in a] + [F(1, 2)], family="opposite"))
+            out.append(Case("q.slerp", rng.distinct(4) + rng.distinct(4) + [rng.rat()], family="non-unit"))
+        return out
+
+    def oracle_cases(self, rng, tier):
+        out = []
+        k = 30 if tier == "quick" else 1500
+        for _ in range(k):
+            out.append(Case("o.lerp", [rng.rat() for _ in range(17)], family="oracle"))
+            # orthogonal unit pair: b = a * (pure unit imaginary); t = p/(p+q) with p^2+q^2 a square
+            a = rng.unit_quat()
+            ax = rng.unit_vec3()
+            b = qmul(a, [F(0)] + ax)
+            p, q = rng.choice([(3, 4), (4, 3), (5, 12), (8, 15), (1, 0), (0, 1)])
+            out.append(Case("o.nlerp.exact", a + b + [F(q, p + q)], family="oracle-orthogonal"))
+            out.append(Case("o.nlerp.exact", a + a + [rng.rat()], family="oracle-identical"))
+        return out
